@@ -29,10 +29,11 @@ import (
 const VerifDir = "/verif"
 
 type Finding struct {
-	Index int    `json:"index"`
-	Key   string `json:"key,omitempty"`
-	Msg   string `json:"msg"`
-	Case  any    `json:"case,omitempty"`
+	Index  int    `json:"index"`
+	Key    string `json:"key,omitempty"`
+	Msg    string `json:"msg"`
+	Case   any    `json:"case,omitempty"`
+	Replay string `json:"replay,omitempty"` // set when the witness is a file of its own (e.g. a race log)
 }
 
 // Report is what one child observed.
@@ -205,6 +206,12 @@ func (k *K) Knownf(key string, format string, a ...any) {
 		k.c.rep.Known = append(k.c.rep.Known, Finding{Index: k.Index, Key: key, Msg: fmt.Sprintf(format, a...), Case: jsonSafe(k.Case)})
 	}
 }
+
+// OutDir is where the children of this property write their logs.
+func (c *Ctx) OutDir() string { return outDir(c.Prop.ID) }
+
+// AddViolation lets Finish (parent side) report a violation found in the children's output.
+func (c *Ctx) AddViolation(f Finding) { c.rep.Violations = append(c.rep.Violations, f) }
 
 func (c *Ctx) Inconclusive(format string, a ...any) {
 	c.rep.Inconclusive = append(c.rep.Inconclusive, fmt.Sprintf(format, a...))
@@ -420,6 +427,9 @@ func runParent(p *Prop, tier string, seed int64, only int) int {
 			lf, _ := os.Create(filepath.Join(dir, fmt.Sprintf("shard%02d.log", i)))
 			cmd.Stdout, cmd.Stderr = lf, lf
 			cmd.Env = append(os.Environ(), "GOTRACEBACK=all")
+			if p.Race {
+				cmd.Env = append(cmd.Env, "GORACE=halt_on_error=0 exitcode=0 history_size=3 log_path="+filepath.Join(dir, "race"))
+			}
 			if err := cmd.Start(); err != nil {
 				results <- res{i, err, false}
 				return
@@ -509,11 +519,14 @@ func runParent(p *Prop, tier string, seed int64, only int) int {
 	seen := map[int]bool{}
 	printed := 0
 	for _, f := range merged.Violations {
-		if seen[f.Index] {
+		if seen[f.Index] && f.Replay == "" {
 			continue
 		}
 		seen[f.Index] = true
-		path := writeReplay(p, tier, seed, f)
+		path := f.Replay
+		if path == "" {
+			path = writeReplay(p, tier, seed, f)
+		}
 		if printed < 10 {
 			msg := f.Msg
 			if len(msg) > 1500 {
